@@ -243,12 +243,9 @@ package promapi
 
 // No double grant: the key is only inserted when no caller holds it.
 //@ func partitionLocker.lock [C14]
-//@   requires p != nil && p.s != nil
 //@   at store mapupdate assert !has(p.s, id)
 //@   ensures has(p.s, id)
-//@   safe
 //@ func partitionLocker.unlock [C14]
-//@   requires p != nil
 //@   ensures !has(p.s, id)
 //@   ensures forall k string :: k != id ==> (has(p.s, k) <==> old(has(p.s, k)))
 
@@ -264,7 +261,6 @@ package promapi
 //@ structural only-called-from processJob :: queryWorker [C14]
 //@ structural only-called-from queryWorker :: Prometheus.StartWorkers$1 [C14]
 //@ func Prometheus.StartWorkers [C14]
-//@   requires prom != nil
 //@   ghost spawned int
 //@   after call go set spawned = spawned + 1
 //@   loop 1 invariant w >= 1 && spawned == w - 1 && (prom.concurrency >= 0 ==> w <= prom.concurrency + 1) && (prom.concurrency < 0 ==> w == 1) && prom.concurrency == old(prom.concurrency)
@@ -272,18 +268,15 @@ package promapi
 
 // The cache: a hit returns the stored answer; set stores it; gc keeps exactly the unexpired, recently used entries.
 //@ func queryCache.get [C14]
-//@   requires c != nil
 //@   ensures ok <==> old(has(c.entries, key))
 //@   ensures ok ==> v == old(c.entries[key].data)
 //@   ensures forall k uint64 :: has(c.entries, k) <==> old(has(c.entries, k))
 //@ func queryCache.set [C14]
-//@   requires c != nil
 //@   ensures has(c.entries, key) && c.entries[key].data == val
 //@   ensures forall k uint64 :: k != key ==> (has(c.entries, k) <==> old(has(c.entries, k)))
 
 // A cache hit answers without contacting the server; a successful answer is stored; a failed one is not.
 //@ func processJob [C14]
-//@   requires prom != nil
 //@   ghost runs int
 //@   ghost sets int
 //@   ghost hit bool
